@@ -1,5 +1,6 @@
 import FgaVerif.Proofs.WMap
 import FgaVerif.Proofs.Weights
+import FgaVerif.Proofs.WeightsCongr
 /-! # C06 — the weighted graph is a deterministic function of the model (specification side)
 
     C06 is a property of the Go code's schedule (map iteration, depth-first start order, concurrent
@@ -21,9 +22,21 @@ import FgaVerif.Proofs.Weights
       subtract operand is positional) are permuted: reordering the operands of unions and intersections
       changes no weight.
 
-    Not proved: anything about the Go algorithm's independence of its schedule (the oracle's job), and
-    invariance of the specification under permutation of *type definitions* (node order in the state
-    list; lookups are by name). -/
+    * `weights_are_a_function_of_meaning` — two specification graphs in which the same terminal types
+      reach the same nodes and the same walks exist (`Spec/WeightsSem.lean`) get the same weight map on
+      every node (both results are characterised by those relations, Props/C04); hypotheses: both
+      iterations converged (`Converged` = `isFixpoint` ∧ `normalB`, evaluated by the driver).
+    * `type_order_permutes_graph`, `type_order_irrelevant` — permuting the **type definitions** of a
+      model permutes its specification graph, and a permuted graph (distinct node names) gets the same
+      weights on every node.  The harness also evaluates the conclusion: the driver's answer for the
+      permuted model must be the same line.
+    * `reordered_same_weights` — the graph with the operands of some unions / intersections /
+      relations permuted (`Reordered`) gets the same weights on every node — not only "the old result
+      still satisfies the new equations".
+
+    Not proved: anything about the Go algorithm's independence of its schedule (the oracle's job); the
+    model-level statement for permuted operands (operator nodes are named by preorder position, so a
+    permuted model's graph is equivalent only up to renaming operator nodes). -/
 namespace FgaVerif.Props.C06
 open FgaVerif.Spec.Weights
 
@@ -73,11 +86,66 @@ theorem reordered_model_same_solution {g g' : SGraph} (h : Reordered g g')
   rw [h.length, stepState_reordered _ _ (result_is_sorted g) h]
   exact hfix
 
+/-! ### order of type definitions, order of operands: same weights -/
+
+theorem weights_are_a_function_of_meaning (g g' : SGraph) (hg : Converged g) (hg' : Converged g')
+    (hH : ∀ T n, HasType g T n ↔ HasType g' T n) (hW : ∀ T n k, Walk g T n k ↔ Walk g' T n k) (n : String) :
+    stateGet (weights g) n = stateGet (weights g') n := weights_determined g g' hg hg' hH hW n
+
+theorem type_order_permutes_graph (grouped : Bool) (m m' : FgaVerif.Model.Model) (hp : m.types.Perm m'.types) :
+    (sgraph grouped m).Perm (sgraph grouped m') := sgraph_perm grouped m m' hp
+
+theorem type_order_irrelevant (grouped : Bool) (m m' : FgaVerif.Model.Model) (hp : m.types.Perm m'.types)
+    (hn : ((sgraph grouped m).map (·.name)).Nodup)
+    (hg : Converged (sgraph grouped m)) (hg' : Converged (sgraph grouped m')) (n : String) :
+    stateGet (weights (sgraph grouped m)) n = stateGet (weights (sgraph grouped m')) n :=
+  weights_perm _ _ (sgraph_perm grouped m m' hp) hn hg hg' n
+
+theorem nodeOf_cons (a : Node) (g : SGraph) (x : String) :
+    nodeOf (a :: g) x = if (a.name == x) = true then some a else nodeOf g x := by
+  unfold nodeOf
+  simp only [List.find?_cons]
+  cases a.name == x <;> rfl
+
+theorem Reordered.graphEquiv {g g' : SGraph} (h : Reordered g g') : GraphEquiv g g' := by
+  induction h with
+  | nil => intro x; exact Or.inl ⟨rfl, rfl⟩
+  | same n _ ih =>
+    intro x
+    rw [nodeOf_cons, nodeOf_cons]
+    by_cases hx : (n.name == x) = true
+    · simp only [hx, if_true]; exact Or.inr ⟨n, n, rfl, rfl, .refl n⟩
+    · simp only [hx]; exact ih x
+  | perm n edges' hp hk _ ih =>
+    intro x
+    rw [nodeOf_cons, nodeOf_cons]
+    by_cases hx : (n.name == x) = true
+    · simp only [hx, if_true]
+      exact Or.inr ⟨n, _, rfl, rfl, rfl, fun e => hp.mem_iff, fun hd => absurd hd hk⟩
+    · simp only [hx]; exact ih x
+
+theorem reordered_same_weights {g g' : SGraph} (h : Reordered g g') (hg : Converged g) (hg' : Converged g')
+    (n : String) : stateGet (weights g) n = stateGet (weights g') n :=
+  weights_congr g g' hg hg' h.graphEquiv n
+
 /-! ### non-vacuity -/
 def m1 : WMap := [("employee", 2), ("user", 1)]
 def m2 : WMap := [("user", 3)]
 def m3 : WMap := [("group", 1), ("user", 2)]
 example : [m1, m2, m3].foldl unionMax [] = [m3, m1, m2].foldl unionMax [] := by decide
 example : interCombine [m1, m2, m3] = [("user", 3)] ∧ interCombine [m3, m2, m1] = [("user", 3)] := by decide
+
+/-- `define a: b or [user]` / `define b: [user] or a from p` / `define p: [doc]`, and the same nodes in
+    another order with the union's operands swapped: both converge, same weights -/
+def gA : SGraph := [
+  ⟨"doc#a", .rel, [⟨.node "doc#b", false, ""⟩, ⟨.type "user", true, ""⟩]⟩,
+  ⟨"doc#b", .rel, [⟨.type "user", true, ""⟩, ⟨.node "doc#a", true, "doc#p"⟩]⟩,
+  ⟨"doc#p", .rel, [⟨.type "doc", true, ""⟩]⟩]
+def gB : SGraph := [
+  ⟨"doc#p", .rel, [⟨.type "doc", true, ""⟩]⟩,
+  ⟨"doc#b", .rel, [⟨.node "doc#a", true, "doc#p"⟩, ⟨.type "user", true, ""⟩]⟩,
+  ⟨"doc#a", .rel, [⟨.node "doc#b", false, ""⟩, ⟨.type "user", true, ""⟩]⟩]
+example : Converged gA ∧ Converged gB := by unfold Converged; decide
+example : stateGet (weights gA) "doc#a" = [("user", infinite)] ∧ stateGet (weights gB) "doc#a" = [("user", infinite)] := by decide
 
 end FgaVerif.Props.C06
